@@ -456,35 +456,71 @@ def r4(rr, repo):
     _, box = repo.find(f'{UT}::Util.execute_xform_box')
     ev = Evaluator(repo, mod)
     bps = ev.run(box.body)
+    ndraw = 0
     for p in bps:
         cnone = p.facts.get('isnone(xform.color)')
         gray = p.facts.get('truthy(frame.is_gray)')
         bgr = p.facts.get('truthy(frame.is_bgr)')
         rect = [e for e in p.events if e.kind == 'call' and e.term == 'cv2.rectangle']
-        if cnone is False and rect and len(rect[0].args) >= 4:
-            c = rect[0].args[3]
+        fill = [e for e in p.events if e.kind == 'store' and e.term.startswith('frame.rw.image[') and isinstance(getattr(e.node, 'slice', None), ast.Tuple)]
+        draw = rect or fill
+        if not draw:
+            continue
+        ndraw += 1
+        node = draw[0].node
+        c = rect[0].args[3] if rect and len(rect[0].args) >= 4 else (fill[0].args[0] if fill else None)
+        if cnone is False and c is not None:
             if gray is True:
-                rr.ob('box colour on a GRAY frame is the mean of the RGB colour', 'sum(xform.color)' in c and '/ 3' in c, mod, rect[0].node, witness=c, key='box-gray')
+                rr.ob('box colour on a GRAY frame is the mean of the RGB colour', 'sum(xform.color)' in c and '/ 3' in c, mod, node, witness=c, key='box-gray')
             elif bgr is True:
-                rr.ob('box colour on a BGR frame is the RGB colour reversed', c == 'xform.color[::-1]', mod, rect[0].node, witness=c, key='box-bgr')
+                rr.ob('box colour on a BGR frame is the RGB colour reversed', c == 'xform.color[::-1]', mod, node, witness=c, key='box-bgr')
             elif bgr is False:
-                rr.ob('box colour on an RGB frame is used as given', c == 'xform.color', mod, rect[0].node, witness=c, key='box-rgb')
+                rr.ob('box colour on an RGB frame is used as given', c == 'xform.color', mod, node, witness=c, key='box-rgb')
             elif gray is False:
-                rr.violated('the channel order of the box colour is decided without testing whether the frame is BGR', mod, rect[0].node, witness=p.pc_text(), key='box-untested')
+                rr.violated('the channel order of the box colour is decided without testing whether the frame is BGR', mod, node, witness=p.pc_text(), key='box-untested')
+        text = 'the box corners are the fractional rectangle scaled by the frame: x by the width, y by the height, far corner = near corner + (box width, box height)'
         if rect:
-            if len(rect[0].args) >= 3:
-                a1, a2 = rect[0].args[1].replace(' ', ''), rect[0].args[2].replace(' ', '')
-                good = a1 == '(int(frame.width*xform.x),int(frame.height*xform.y))' and a2 == '(int(frame.width*(xform.x+xform.width)),int(frame.height*(xform.y+xform.height)))'
-                swapped = any(t in a1 + a2 for t in ('frame.height*xform.x', 'frame.width*xform.y', 'frame.height*(xform.x', 'frame.width*(xform.y')) or \
-                    ('xform.x+xform.width' not in a2 and 'xform.width' in a2) or ('xform.y+xform.height' not in a2 and 'xform.height' in a2)
-                text = 'the box corners are the fractional rectangle scaled by the frame: x by the width, y by the height, far corner = near corner + (box width, box height)'
-                if good:
-                    rr.holds(text, mod, rect[0].node, key='box-geometry')
-                elif swapped:
-                    rr.violated(text, mod, rect[0].node, witness=f'{a1} .. {a2}'[:200], key='box-geometry')
-                else:
-                    rr.unresolved('the box corners are computed in a way the rule does not know', mod, rect[0].node, witness=f'{a1} .. {a2}'[:200], key='box-geometry')
-            rr.ob('the box is drawn on a writable copy-on-need of the frame image (frame.rw.image), filled (-1)', rect[0].args[0] == 'frame.rw.image' and rect[0].args[-1] in ('-1',), mod, rect[0].node, witness=str(rect[0].args[:1]), key='box-rw')
+            # cv2.rectangle paints BOTH corners: the far corner handed to it has to be the last pixel inside the rectangle (one less than the scaled far edge), and the
+            # coordinates have to be kept within what OpenCV accepts
+            a1, a2 = rect[0].args[1].replace(' ', ''), rect[0].args[2].replace(' ', '')
+            swapped = any(t in a1 + a2 for t in ('frame.height*xform.x', 'frame.width*xform.y', 'frame.height*(xform.x', 'frame.width*(xform.y')) or \
+                ('xform.x+xform.width' not in a2 and 'xform.width' in a2) or ('xform.y+xform.height' not in a2 and 'xform.height' in a2)
+            if swapped:
+                rr.violated(text, mod, node, witness=f'{a1} .. {a2}'[:200], key='box-geometry')
+            inclusive = a2 == '(int(frame.width*(xform.x+xform.width)),int(frame.height*(xform.y+xform.height)))'
+            if inclusive:
+                rr.violated('the box is drawn only inside its rectangle: cv2.rectangle paints its far corner too, and that corner is given as the scaled far EDGE - one row and one column beyond the rectangle '
+                            '(an empty box paints a pixel, an unclipped coordinate overflows)', mod, node, witness=a2[:120], key='box-far-edge-exclusive')
+            elif not swapped:
+                rr.unresolved('the far corner handed to cv2.rectangle is computed in a way this rule does not know', mod, node, witness=a2[:160], key='box-far-edge-exclusive')
+            rr.ob('the box is drawn on a writable copy-on-need of the frame image (frame.rw.image), filled (-1)', rect[0].args[0] == 'frame.rw.image' and rect[0].args[-1] in ('-1',), mod, node, witness=str(rect[0].args[:1]), key='box-rw')
+        else:
+            sl = fill[0].node.slice.elts
+            rows, cols = sl[0], sl[1]
+            okform = isinstance(rows, ast.Slice) and isinstance(cols, ast.Slice) and rows.step is None and cols.step is None and all(x is not None for x in (rows.lower, rows.upper, cols.lower, cols.upper))
+            if not okform:
+                rr.unresolved('the box is painted by a store this rule does not know', mod, node, witness=U(fill[0].node)[:100], key='box-geometry')
+                continue
+            def val(nm):       # the (last) term bound to a local on this path
+                b_ = [e for e in p.events if e.kind == 'bind' and e.term == U(nm)]
+                return b_[-1].args[0].replace(' ', '') if b_ else U(nm).replace(' ', '')
+            ry0, ry1, cx0, cx1 = val(rows.lower), val(rows.upper), val(cols.lower), val(cols.upper)
+            def scaled(t, dim, frac):     # max(0, min(dim, int(dim * frac))) with dim / frac as given
+                return t == f'max(0,min({dim},int({dim}*{frac})))'
+            W, H = 'frame.width', 'frame.height'
+            good = scaled(cx0, W, 'xform.x') and scaled(cx1, W, '(xform.x+xform.width)') and scaled(ry0, H, 'xform.y') and scaled(ry1, H, '(xform.y+xform.height)')
+            alt = good or (scaled(cx0, W, 'xform.x') and cx1 == f'max(0,min({W},int({W}*(xform.x+xform.width))))')
+            swapped = any(t_ in cx0 + cx1 for t_ in (H,)) or any(t_ in ry0 + ry1 for t_ in (W,)) or 'xform.y' in cx0 + cx1 or 'xform.x' in ry0 + ry1 or \
+                ('xform.x+xform.width' not in cx1 and 'xform.width' in cx1) or ('xform.y+xform.height' not in ry1 and 'xform.height' in ry1)       # far edge = size, not position + size
+            if good:
+                rr.holds(text + '; rows are indexed by y, columns by x, each edge clipped to the image, far edges exclusive (a half-open slice)', mod, node, key='box-geometry')
+                rr.holds('the box is drawn only inside its rectangle (half-open slice over the clipped pixel rectangle)', mod, node, key='box-far-edge-exclusive')
+            elif swapped:
+                rr.violated(text, mod, node, witness=f'rows {ry0}:{ry1}, columns {cx0}:{cx1}'[:240], key='box-geometry')
+            else:
+                rr.unresolved('the box corners are computed in a way the rule does not know', mod, node, witness=f'rows {ry0}:{ry1}, columns {cx0}:{cx1}'[:240], key='box-geometry')
+            rr.ob('the box is drawn on a writable copy-on-need of the frame image (frame.rw.image)', fill[0].term.startswith('frame.rw.image['), mod, node, witness=fill[0].term[:60], key='box-rw')
+    rr.floor('paths of execute_xform_box that draw', ndraw, 3, mod, box)
 
 
 def _strip_bounds(n):
